@@ -15,9 +15,17 @@ ASSUMPTIONS = [
 ]
 
 HOOK_COMMITS = ["aa112f6"]
+FIX_COMMITS = ["536bdea"]
 NOT_YET = {}
 
 CFG = {
+    "C16": {
+        "cases": {"quick": 1600, "thorough": 160000},
+        "level_text": "Theorems about the model: deviation magnitude/sign/reconstruction (ℝ), Distance value/reversal, DevSet cached-extreme invariant for every new/push history, point-cloud length invariant for every history incl. rejected operations, tolerance-map = greatest breakpoint not above x. Model tied to the Rust by a differential run on every check.",
+        "level_note": "Trusted: Lean kernel, Mathlib, hand-written model validated by the correspondence run; closest point taken from the implementation (C02); rounding not analysed.",
+        "files": ["src/metrology/line_profiles.rs", "src/geom3/mesh/measurement.rs", "src/metrology/dimension.rs", "src/metrology/surface_deviation.rs", "src/geom3/point_cloud.rs", "src/metrology/tolerance_map.rs", "src/common/discrete_domain.rs"],
+        "tol": {"*": 1e-9},
+    },
     "C18": {
         "cases": {"quick": 16000, "thorough": 1600000},
         "level_text": "Theorems (ℝ / every ordered field) about the model of the angle and interval functions: ranges, congruence mod 2π, interval set semantics; the model is tied to the Rust by a differential run (incl. bit-exact fmod) on every check.",
